@@ -405,13 +405,14 @@ def drive(prop, tier, seed, workers=None, replay=None, verbose=False):
     # ---- replay files
     replay_paths = []
     seen = set()
-    os.makedirs(os.path.join(VERIF_ROOT, "replay"), exist_ok=True)
+    replay_dir = os.environ.get("VERIF_REPLAY_DIR") or os.path.join(VERIF_ROOT, "replay")
+    os.makedirs(replay_dir, exist_ok=True)
     for r, v in new_viol:
         key = canon([v["mechanism"], v["config"]])
         if key in seen:
             continue
         seen.add(key)
-        path = os.path.join(VERIF_ROOT, "replay", f"{prop}_{r['hash']}_{hashlib.sha1(key.encode()).hexdigest()[:6]}.json")
+        path = os.path.join(replay_dir, f"{prop}_{r['hash']}_{hashlib.sha1(key.encode()).hexdigest()[:6]}.json")
         with open(path, "w") as f:
             json.dump({"property": prop, "tier": tier, "seed": seed, "case": r["case"], "violation": v,
                        "notes": r["notes"], "repo": repo_state()}, f, indent=1, default=_jdefault)
@@ -452,8 +453,9 @@ def drive(prop, tier, seed, workers=None, replay=None, verbose=False):
               "numpy, scipy, arviz and the Python runtime are trusted",
               "verdict covers only the executions produced by this run (runtime monitoring)"],
           "wall_s": round(wall, 2), "violations": len(new_viol)}
-    os.makedirs(os.path.join(VERIF_ROOT, "evidence"), exist_ok=True)
-    with open(os.path.join(VERIF_ROOT, "evidence", f"{prop}.json"), "w") as f:
+    ev_dir = os.environ.get("VERIF_EVIDENCE_DIR") or os.path.join(VERIF_ROOT, "evidence")
+    os.makedirs(ev_dir, exist_ok=True)
+    with open(os.path.join(ev_dir, f"{prop}.json"), "w") as f:
         json.dump(ev, f, indent=1, default=_jdefault)
     # ---- report
     print(f"[{prop}] tier={tier} seed={seed} cases={len(results)}/{len(all_cases)} nontrivial={len(distinct)}(+{len(subkeys)} sub) "
